@@ -62,100 +62,112 @@ Fixpoint chain_reaches (fuel : nat) (id : N) (o : term) (ss : subst) : res bool 
   | _ => Ok false
   end.
 
+(* One level of `unify`, with the recursive call as a parameter (`rec`), so that the two
+   loops are ordinary structural fixpoints and lemmas about them can be stated once. *)
+Section UnifyBody.
+  Variable rec : term -> term -> subst -> res (option subst).
+
+  (* the `while i < other_len` loop of the SComplex arm; `ss2` starts as an EMPTY set *)
+  Fixpoint unify_args (ls rs : list term) (new_ss ss2 : subst) : res (option subst) :=
+    match ls, rs with
+    | l :: ls', r :: rs' =>
+        if is_anon l || is_anon r then unify_args ls' rs' new_ss ss2
+        else
+          do u <- rec l r new_ss;
+          match u with
+          | Some s => unify_args ls' rs' s s
+          | None => Ok None
+          end
+    | _, _ => Ok (Some ss2)
+    end.
+
+  (* the `while *this_list != Nil && *other_list != Nil` loop of the SLinkedList arm *)
+  Fixpoint unify_lists (this_list other_list : term) (new_ss : subst) {struct this_list}
+    : res (option subst) :=
+    if is_nil this_list || is_nil other_list then Ok None
+    else
+      match this_list, other_list with
+      | TList th tnx _ ttv, TList oh onx _ otv =>
+          if ttv && otv then
+            if is_anon oh then Ok (Some new_ss)
+            else if is_anon th then Ok (Some new_ss)
+            else rec th oh new_ss
+          else if ttv then rec th other_list new_ss
+          else if otv then rec oh this_list new_ss
+          else if is_nil th && is_nil oh then Ok (Some new_ss)
+          else
+            do u <- rec th oh new_ss;
+            match u with
+            | Some s => unify_lists tnx onx s
+            | None => Ok None
+            end
+      | _, _ => Panic
+      end.
+
+  Definition unify_body (f : nat) (self other : term) (ss : subst) : res (option subst) :=
+    if term_eqb self other then Ok (Some ss)
+    else if is_anon other then Ok (Some ss)
+    else
+    match self with
+    | TAnon => Ok (Some ss)
+    | TAtom s1 =>
+        match other with
+        | TAtom s2 => Ok (if str_eqb s1 s2 then Some ss else None)
+        | TVar _ _ | TFun _ _ => rec other self ss
+        | _ => Ok None
+        end
+    | TFloat f1 =>
+        match other with
+        | TFloat f2 => Ok (if feqb f1 f2 then Some ss else None)
+        | TVar _ _ | TFun _ _ => rec other self ss
+        | _ => Ok None
+        end
+    | TInt i1 =>
+        match other with
+        | TInt i2 => Ok (if Z.eqb i1 i2 then Some ss else None)
+        | TVar _ _ | TFun _ _ => rec other self ss
+        | _ => Ok None
+        end
+    | TVar id _ =>
+        if id =? 0 then Panic
+        else
+          match other with
+          | TFun _ _ => rec other self ss
+          | _ =>
+              match ss_get ss id with
+              | Some u => rec u other ss
+              | None =>
+                  do al <- chain_reaches f id other ss;
+                  Ok (Some (if al then ss else ss_set ss id other))
+              end
+          end
+    | TComplex sts =>
+        match other with
+        | TComplex ots =>
+            if negb (Nat.eqb (length sts) (length ots)) then Ok None
+            else unify_args sts ots ss []
+        | TVar _ _ | TFun _ _ => rec other self ss
+        | _ => Ok None
+        end
+    | TList _ _ _ _ =>
+        match other with
+        | TList _ _ _ _ => unify_lists self other ss
+        | TVar _ _ | TFun _ _ => rec other self ss
+        | _ => Ok None
+        end
+    | TFun name args =>
+        do v <- eval_function f name args ss;
+        match v with
+        | Some r => rec r other ss
+        | None => Ok None
+        end
+    | TNil => Ok None
+    end.
+End UnifyBody.
+
 Fixpoint unify (fuel : nat) (self other : term) (ss : subst) {struct fuel}
   : res (option subst) :=
   match fuel with
   | O => OutOfFuel
-  | S f =>
-  if term_eqb self other then Ok (Some ss)
-  else if is_anon other then Ok (Some ss)
-  else
-  match self with
-  | TAnon => Ok (Some ss)
-  | TAtom s1 =>
-      match other with
-      | TAtom s2 => Ok (if str_eqb s1 s2 then Some ss else None)
-      | TVar _ _ | TFun _ _ => unify f other self ss
-      | _ => Ok None
-      end
-  | TFloat f1 =>
-      match other with
-      | TFloat f2 => Ok (if feqb f1 f2 then Some ss else None)
-      | TVar _ _ | TFun _ _ => unify f other self ss
-      | _ => Ok None
-      end
-  | TInt i1 =>
-      match other with
-      | TInt i2 => Ok (if Z.eqb i1 i2 then Some ss else None)
-      | TVar _ _ | TFun _ _ => unify f other self ss
-      | _ => Ok None
-      end
-  | TVar id _ =>
-      if id =? 0 then Panic
-      else
-        match other with
-        | TFun _ _ => unify f other self ss
-        | _ =>
-            match ss_get ss id with
-            | Some u => unify f u other ss
-            | None =>
-                do al <- chain_reaches f id other ss;
-                Ok (Some (if al then ss else ss_set ss id other))
-            end
-        end
-  | TComplex sts =>
-      match other with
-      | TComplex ots =>
-          if negb (Nat.eqb (length sts) (length ots)) then Ok None
-          else
-            (fix args (ls rs : list term) (new_ss ss2 : subst) : res (option subst) :=
-               match ls, rs with
-               | l :: ls', r :: rs' =>
-                   if is_anon l || is_anon r then args ls' rs' new_ss ss2
-                   else
-                     do u <- unify f l r new_ss;
-                     match u with
-                     | Some s => args ls' rs' s s
-                     | None => Ok None
-                     end
-               | _, _ => Ok (Some ss2)
-               end) sts ots ss []
-      | TVar _ _ | TFun _ _ => unify f other self ss
-      | _ => Ok None
-      end
-  | TList _ _ _ _ =>
-      match other with
-      | TList _ _ _ _ =>
-          (fix lists (this_list other_list : term) (new_ss : subst) {struct this_list}
-             : res (option subst) :=
-             if is_nil this_list || is_nil other_list then Ok None
-             else
-               match this_list, other_list with
-               | TList th tnx _ ttv, TList oh onx _ otv =>
-                   if ttv && otv then
-                     if is_anon oh then Ok (Some new_ss)
-                     else if is_anon th then Ok (Some new_ss)
-                     else unify f th oh new_ss
-                   else if ttv then unify f th other_list new_ss
-                   else if otv then unify f oh this_list new_ss
-                   else if is_nil th && is_nil oh then Ok (Some new_ss)
-                   else
-                     do u <- unify f th oh new_ss;
-                     match u with
-                     | Some s => lists tnx onx s
-                     | None => Ok None
-                     end
-               | _, _ => Panic
-               end) self other ss
-      | TVar _ _ | TFun _ _ => unify f other self ss
-      | _ => Ok None
-      end
-  | TFun name args =>
-      do v <- eval_function f name args ss;
-      match v with
-      | Some r => unify f r other ss
-      | None => Ok None
-      end
-  | TNil => Ok None
-  end
+  | S f => unify_body (unify f) f self other ss
   end.
